@@ -139,8 +139,8 @@ func (c *e2Ctl) loop(onQuiescent func()) bool {
 		c.points = append(c.points, explore.SchedPoint{Alts: alts, Chosen: ch, Key: key})
 		t := order[ch]
 		c.lastRel = t
-		c.S.Release(t)
 		c.steps++
+		c.S.Release(t)
 		if !t.Observer {
 			c.running = t
 		}
